@@ -134,7 +134,12 @@ def case_C02(seed):
             if m.length != s['length']:
                 bad.append(f"length {m.length} != model {s['length']}")
             if bad:
-                viol.append(('C02:reported-values-differ-from-model',
+                key02 = 'C02:reported-values-differ-from-model'
+                if m.obs_ne >= 1 and any(o[0] == 'widen' for o in done) and len(bad) == 1 and bad[0].startswith('logprob') \
+                        and m.logprob < s['logprob']:
+                    # a non-emitting state whose stored score is worse than its (improved) predecessor chain now implies
+                    key02 = 'C02:stale-non-emitting-score-after-widening'
+                viol.append((key02,
                              f"after {done}: state #{j} {m.key}: " + '; '.join(bad),
                              {'case': U.case_repr(case), 'ops': done, 'state_index': j, 'key': [str(x) for x in m.key],
                               'reported': {'logprob': m.logprob, 'dist_obs': m.dist_obs, 'length': m.length}, 'model': s}))
